@@ -136,6 +136,7 @@ def run_tlc(module, cfg_path, workers=16, env=None, timeout=3600, simulate=None,
     res = TlcResult()
     res.wall = time.time() - t0
     log_lines = []
+    completed = False
     with open(out_path, 'r', errors='replace') as f:
         for line in f:
             line = line.rstrip('\n')
@@ -150,7 +151,10 @@ def run_tlc(module, cfg_path, workers=16, env=None, timeout=3600, simulate=None,
                 else:
                     res.cases.append(obj)
                 continue
-            if len(log_lines) < 4000:
+            if line.startswith('Model checking completed. No error has been found.'):
+                completed = True
+            # coverage output can be tens of thousands of lines: keep the head and every line that matters
+            if len(log_lines) < 4000 or line.startswith(('Error', 'Finished', 'Model checking')) or 'states generated' in line:
                 log_lines.append(line[:2000])
             m = re.match(r'^(\d+) states generated, (\d+) distinct states found', line)
             if m:
@@ -172,7 +176,7 @@ def run_tlc(module, cfg_path, workers=16, env=None, timeout=3600, simulate=None,
                 res.coverage[m.group(2) + '!' + m.group(1)] = int(m.group(4))
     res.log = '\n'.join(log_lines)
     shutil.rmtree(meta, ignore_errors=True)
-    ok_end = ('Model checking completed. No error has been found.' in res.log) or (simulate is not None and proc.returncode == 0)
+    ok_end = completed or (simulate is not None and proc.returncode == 0)
     if res.violation is not None:
         if not expect_violation:
             raise TlcFailure('the specification itself violates %s (%s, %s):\n%s' % (res.violation, module, cfg_path, tail(res.log)))
